@@ -1,7 +1,35 @@
 """C30 flush writes exactly the in-memory object graph to the database (engine H).
 
-Bounded exhaustive exploration of ORM operation histories on the real Session /
-unit of work, in lock-step with the reference model ``vf.models.sessref2``.
+Bounded exhaustive exploration of ORM operation histories on the real Session / unit of work, in lock-step with the
+reference model ``vf.models.sessref2`` ("what rows does this object graph imply"), on a fresh SQLite database per
+replay (``foreign_keys=ON``, ``autocommit=False`` driver mode).
+
+Worlds (``vf.worlds.ormworld2``): U1 one-to-many with cascade save-update / all / all+delete-orphan, also with a NOT NULL
+foreign key and with a second object of the same primary key (row switch); U7 one-to-one; U3 self-referential tree;
+U2 many-to-many through ``secondary``; U4 joined inheritance (attribute on the sub-table, two classes with the same
+identity) below a one-to-many; U5 natural primary key with ON UPDATE CASCADE, passive_updates on and off (key change with
+children, key collisions); U8 two-table cycle with post_update.
+
+Alphabet over the 4-5 named objects of a world: add, delete, expunge, set(column | primary key), many-to-one set,
+collection append / remove / replace, one-to-one set, merge (plain copy; copy with a relationship set to copies), flush,
+commit -- from an empty session and from committed, expired root graphs; every replica once with ``autoflush=True``
+(objects expired after commit, lazy loads autoflush) and once with ``autoflush=False`` (objects re-read after commit).
+
+Oracle after every flush / commit (and after every autoflush that happens inside an operation): raw table rows == rows
+derived from the model (column values, FK columns from the relationship state, association rows from the collections,
+no rows for deleted objects / orphans); lifecycle state of every object; every loaded column attribute of a persistent
+object == its row; after commit additionally the graph loaded by a brand-new Session == the model's graph, and the graph
+read through the committing session == the new session's.  Where the final state violates PRIMARY KEY / FOREIGN KEY /
+NOT NULL the flush must raise; where it satisfies them it must not.  Outcomes the documentation leaves open (objects not
+in the session -- "will not proceed" warnings --, detached members of collections, an object both deleted and put into a
+collection) accept the documented set.
+
+Catalogued defects of the unchanged tree (``ormworld2.KNOWN_QUIRKS``): C30 owns f7 (row switch between different
+joined-inheritance subclasses), f8 (passive_updates=True leaves a stale foreign key attribute in memory), f9
+(passive_updates=False overwrites a de-association made through an expired many-to-one); f1 f2 f3 f6 belong to C39,
+f4 f10 to C47 -- the explorer adopts the library's behaviour after any of them and goes on.
+
+Mutations caught: see MUTATIONS at the end of the module.
 """
 from ..engines import hist
 from ..worlds import ormworld2 as ow
@@ -10,14 +38,27 @@ ID = "C30"
 LEVEL = "model_checking"
 META = dict(
     engine="H",
-    technique="explicit-state BFS over ORM operation histories by replay on fresh databases, reference row model in lock-step",
+    technique="explicit-state BFS over ORM operation histories by replay on fresh databases, independent row model in lock-step, "
+    "canonical-state dedupe on (implementation state, model state)",
     design_ref="DESIGN.md §5 C30",
-    level_text="",
-    level_note="",
-    rule="",
-    assumptions=[],
-    bounds=dict(quick="", thorough=""),
+    level_text="Every history over the stated alphabet up to the depth bound, from every root, in 18 mapping configurations x 2 "
+    "autoflush modes, is executed on the real Session and compared after every flush/commit with a plain-Python model of the "
+    "rows the object graph implies, with the raw tables, and with the graph a new Session loads. Complete for the bound, so any "
+    "defect expressible in <= depth operations on <= 5 objects of these mappings is found.",
+    level_note="Trusted: sessref2 (about 600 lines, no SQLAlchemy import), the replayer and raw readers of ormworld2. Operations "
+    "on deleted or detached objects, re-adding detached objects and composite / association-object mappings (U9) are outside "
+    "the alphabet. Only SQLite executes; PostgreSQL/MariaDB are not reachable in this sandbox.",
+    rule="state = (implementation-visible state of every named object incl. committed_state / expired / pending mutations / "
+    "hasparent flags, model state incl. rows); transition = one operation applied to a replayed replica in lock-step; a case is "
+    "non-trivial when it is a flush/commit with pending inserts, deletes or attribute changes whose rows were compared; "
+    "outcomes = distinct databases observed after flushes",
+    assumptions=["SQLite 3.40 with foreign_keys=ON", "single session, single thread", "expire_on_commit=True", "explicit primary keys"],
+    bounds=dict(
+        quick="18 configurations x {autoflush on, off} x 3-4 roots, histories <= 2 operations beyond the root (+ merge alphabet depth 2 on 6 configurations)",
+        thorough="same, histories <= 3 operations beyond the root",
+    ),
 )
+SHARD_TIMEOUT = dict(quick=600, thorough=3000)
 
 ROOTS = dict(
     U1=[
@@ -63,8 +104,12 @@ SU, ALL, ORPH = (ow.CASCADE_PRESETS[k] for k in ("su", "all", "allorph"))
 
 def world_keys(tier):
     ks = [("U1", SU), ("U1", ALL), ("U1", ORPH), ("U7", SU), ("U7", ORPH), ("U3", SU), ("U3", ORPH), ("U2", SU), ("U2", ALL),
-          ("U4", SU), ("U4", ORPH), ("U5", True, SU), ("U5", False, SU), ("U5", True, ORPH), ("U8", SU), ("U8", ALL)]
+          ("U4", SU), ("U4", ORPH), ("U5", True, SU), ("U5", False, SU), ("U5", True, ORPH), ("U8", SU), ("U8", ALL),
+          ("U1", ALL, True, True), ("U1", ORPH, False)]
     return ks
+
+
+MERGE_KINDS = ("merge", "add", "delete", "rel", "flush", "commit")
 
 
 def configs(tier):
@@ -72,7 +117,11 @@ def configs(tier):
     for wk in world_keys(tier):
         for af in (True, False):
             for ri in range(len(ROOTS[wk[0]])):
-                out.append(dict(world=wk, autoflush=af, root=ri, depth=2 if tier == "quick" else 3))
+                out.append(dict(world=wk, autoflush=af, root=ri, depth=2 if tier == "quick" else 3, kinds=None))
+    for wk in [("U1", SU), ("U1", ORPH), ("U2", ALL), ("U3", ALL), ("U7", ORPH), ("U4", SU)]:
+        for af in (True, False):
+            for ri in ((1,) if tier == "quick" else (0, 1, 2)):
+                out.append(dict(world=wk, autoflush=af, root=ri, depth=2, kinds=list(MERGE_KINDS)))
     return out
 
 
@@ -100,6 +149,8 @@ def run_shard(shard, tier, rec):
         h = h + (op,)
 
     def enabled(ms):
+        if shard.get("kinds"):
+            return ow.ref.enabled_ops(ms, names, kinds=tuple(shard["kinds"]), af=af)
         return ow.ref.enabled_ops(ms, names, pk_values=("u9", "u2") if shard["world"][0] == "U5" else (), af=af)
 
     def step(hist_, ms, op):
@@ -137,6 +188,6 @@ def replay(case):
     w = ow.world(shard["world"])
     hist_ = tuple(_tup(o) for o in case["history"])
     op = _tup(case["op"])
-    ms = ow.model_after(w, hist_)
+    ms = ow.model_along(w, hist_, shard["autoflush"])
     post, key, problems = ow.lockstep(w, hist_, ms, op, autoflush=shard["autoflush"])
     return [("%s af=%s: %s | after %s" % (shard["world"], shard["autoflush"], sig, ow.fmt_hist(hist_ + (op,))), detail) for kind, sig, detail in problems if not kind.startswith("known:")]
